@@ -24,12 +24,26 @@ SPEC = {
             ") ] ; : , := ( [ THEN DO OF TO BY ELSE ELSIF UNTIL END_IF END_CASE END_VAR END_PROGRAM, end of input, a "
             "rotating slice of the remaining punctuation/END_*/structural keywords and trivia pieces; thorough: the whole "
             "focused list spaced, glued and followed by EOF; plus random (snippet|corpus file, boundary) pairs with the "
-            "whole real token table), the nesting-guard family (in EVERY run: 13 recursive expression forms - parentheses, "
-            "call arguments positional/named/second, index lists, right-associative **, unary - and NOT, unary after "
-            "binary, call/index and paren/call alternations, ADR - at exactly MAX_EXPRESSION_DEPTH levels, one level "
-            "more and 76 more (thorough: also 1000, 2000, 3000, 4000 levels), plus 3 flat chain forms; parsed in the "
-            "capped child on a 2 MiB thread stack; oracle: the parse returns, and the nesting-limit error (limit and "
-            "message read from expressions.rs) is reported iff the form needs more levels than the limit), and nesting cases (expressions to depth 1500, statements/types/namespaces to depth 200, in a "
+            "whole real token table), the nesting families (in EVERY run, each text in its own capped child process on a thread "
+            "with a 2 MiB stack: (i) 16 expression forms - parentheses, call arguments positional/named/second, index lists, "
+            "right-associative **, unary - and NOT, unary after binary, call/index and paren/call alternations, ADR, and the "
+            "three flat chains a + a + .., a.b.b.., a^[1](2).. - at exactly MAX_EXPRESSION_DEPTH levels, one more, 76 more, "
+            "chains also 10 x (thorough: 2000-4000 levels, chains 100 x); (ii) 43 further forms covering every grammar "
+            "function that can reach itself: 14 statement forms (IF, IF-ELSE, ELSIF, CASE, CASE-ELSE, FOR, WHILE, REPEAT, "
+            "labels, mixed loops, unclosed, inside METHOD / ACTION / FUNCTION), 12 type forms (ARRAY OF in TYPE and VAR, "
+            "bare ARRAY OF, POINTER [TO], REF_TO in variables, return types, struct fields, SIZEOF, and the SIZEOF(type(expr)) / "
+            "STRING[expr] / ARRAY[expr] alternations of types and expressions), 3 namespace forms, 5 forms reaching the "
+            "expression guard from declarations (initialiser, subrange, case label, enum value, condition) and 9 tree-depth "
+            "forms (chains of comparison / sum of products / AND-OR / in a call argument / in a condition / call of call, "
+            "and 'staircases' where every parenthesis or unary operator is followed by a chain so that the heights add up), "
+            "each at its guard's limit, one level more and 10 x the limit, a rotating third of the non-expression forms at "
+            "100 x (thorough: all at 100 x and up to 1000 x / 1 MB), one flat chain of 1 MB, and the 11 witnesses of the "
+            "recorded stack-overflow findings; oracle: the child survives parse, second parse and drop, tokens tile, tree "
+            "text = input, leaves = tokens, error ranges inside the text, the second parse gives the same dump and errors "
+            "(skipped when one parse takes > 1.5 s), and the nesting-limit error of the guard that bounds the form - limits "
+            "and messages read from grammar/*.rs, a guard the source does not have counts as 'no limit' - is reported iff "
+            "the form needs more levels than the limit, and no other guard fires), and random nesting cases (expressions to "
+            "depth 1500, statements/types/namespaces to depth 200, in a "
             "child process). Sweep and nesting cases run in a child process under an address-space cap with a "
             "per-text progress deadline; all other cases under a watchdog with a memory-growth check, so a hang or "
             "run-away allocation is reported with the text that causes it. Per case the real lexer, parser hook and parser run; 4 operations are compared with the "
@@ -55,11 +69,8 @@ SPEC = {
         "the grammar functions (grammar/*.rs) are NOT modelled: that they terminate, never drop a Marker, pair "
         "start_node/finish_node and stop with the cursor at the end is checked per generated input by the premise "
         "monitor and the oracle, not proved",
-        "nesting beyond the stated depths is outside the claim: statements, types and namespaces recurse without a "
-        "guard (expressions are guarded by MAX_EXPRESSION_DEPTH = 1024)",
-        "flat operator/postfix chains are exercised up to 4000 chained operations: the green tree of a flat chain is as "
-        "deep as the chain is long and rowan's recursive drop overflows a 2 MiB stack from about 6000-9000 operations on "
-        "the unchanged code (witness: x := a followed by 3000 x '^[1](2)', 21 KB)",
+        "the stack available to the parser is at least 2 MiB (Rust's default for spawned threads; the language "
+        "server parses on such threads): the nesting families are decided on exactly that stack in the dev profile",
     ],
 }
 
@@ -85,8 +96,15 @@ MANIFEST = {
                   "twice, compare green trees and errors); tree-shape invariance under insertion of spaces/newlines/block "
                   "comments at token boundaries for error-free inputs. Trusted: Lean kernel + standard axioms; the "
                   "hand-written model (validated by the differential run only); rowan's builder as modelled; logos as a "
-                  "black box whose spans are monitored. Nesting is exercised up to expressions 1500 / statements 200 deep; "
-                  "deeper statement/type nesting has no guard in the parser and is outside the claim.",
+                  "black box whose spans are monitored. Termination without stack overflow is DECIDED per run, not proved: every "
+                  "recursive grammar rule (59 forms, see 'rule') is parsed, re-parsed and dropped on a 2 MiB stack at, just beyond "
+                  "and 10-100 x (chains: 1 MB of text) beyond the limits MAX_EXPRESSION_DEPTH / MAX_STATEMENT_DEPTH / "
+                  "MAX_TYPE_DEPTH / MAX_NAMESPACE_DEPTH read from the source, with the C12 oracle on the outputs; a crash of "
+                  "any of them is reported as a violation with the text as replay. That the guards bound the depth of the "
+                  "TREE (not only of the recursion) for every input is tested by these families, not proved. Found this way "
+                  "and recorded in known_findings.json: C12-expression-tree-depth-overflow, C12-statement-nesting-overflow, "
+                  "C12-type-nesting-overflow, C12-namespace-nesting-overflow (their witnesses are replayed in every run and the "
+                  "repaired behaviour is required).",
 }
 
 
@@ -105,34 +123,90 @@ def _case_info(c):
     return info
 
 
+def _finding_of(cls):
+    """The recorded finding a nesting-family case belongs to (by the guard that bounds its form)."""
+    if " kind=statement " in cls:
+        return "C12-statement-nesting-overflow"
+    if " kind=type " in cls:
+        return "C12-type-nesting-overflow"
+    if " kind=namespace " in cls:
+        return "C12-namespace-nesting-overflow"
+    if cls.startswith("deep nest ") or cls.startswith("deep guard "):
+        return "C12-expression-tree-depth-overflow"
+    return None
+
+
+def _all_findings():
+    import json
+    import os
+    path = vlib.KNOWN
+    if not os.path.exists(path):
+        return []
+    return [f for f in json.load(open(path)).get("findings", []) if f.get("property") == "C12"]
+
+
 def extra(ctx):
-    """Oracle on the implementation: collect the harness's `# oracle FAIL` verdicts."""
+    """Oracle on the implementation: collect the harness's `# oracle FAIL` verdicts.
+
+    A failing nesting-family case belongs to one of the recorded findings.  While that finding is `open`
+    and the failure carries its `match` signature it is printed as KNOWN-FINDING; once it is `fixed`
+    (or for any other failure) the repaired behaviour is required and the case is a violation.  The
+    witnesses of all recorded findings must have been run (and passed) in every complete run."""
     fails, known = [], []
     checked = ok = 0
     classes = {}
+    open_findings = {f["id"]: f for f in vlib.known_findings("C12")}
+    known_seen = {}
+    witnesses_ok = set()
     for c in ctx["cases"]:
         verdicts = [l for l in c.lines if l.startswith("# oracle")]
         if not verdicts:
             fails.append({**_case_info(c), "failed": ["no oracle verdict written for this case"]})
             continue
         checked += 1
+        info = _case_info(c)
+        cls = info.get("class", "")
         bad = [l[len("# oracle FAIL "):] for l in verdicts if l.startswith("# oracle FAIL")]
         if bad:
-            d = _case_info(c)
-            d.update({"failed": bad, "seed": ctx["seed"], "tier": ctx["tier"],
-                      "what": "the property's own statement fails on the real lexer/parser for this text",
-                      "reproduce": f"VERIF_SEED={ctx['seed']} vharness c12 --seed {ctx['seed']} --cases <n> --only {c.n} --dump 1"})
-            fails.append(d)
+            fid = _finding_of(cls)
+            f = open_findings.get(fid)
+            if f is not None and all(f.get("match") and f["match"] in b for b in bad):
+                known_seen.setdefault(fid, []).append(cls)
+            else:
+                d = info
+                d.update({"failed": bad, "seed": ctx["seed"], "tier": ctx["tier"],
+                          "what": "the property's own statement fails on the real lexer/parser for this text",
+                          "reproduce": f"VERIF_SEED={ctx['seed']} vharness c12 --seed {ctx['seed']} --cases <n> --only {c.n} --dump 1"})
+                if fid:
+                    d["finding"] = fid + (" (recorded as fixed: the repaired behaviour is required; this is a regression "
+                                          "or the tree does not contain the fix)" if f is None else " (open, but this failure does not match its signature)")
+                fails.append(d)
         else:
             ok += 1
+            if cls.startswith("deep nest "):
+                w = dict(kv.split("=", 1) for kv in cls.split()[2:] if "=" in kv)
+                witnesses_ok.add(f"{w.get('form')}:{w.get('units')}")
         for l in c.lines:
             if l.startswith("# class"):
                 k = l.split()[2]
                 classes[k] = classes.get(k, 0) + 1
+    for fid, seen in known_seen.items():
+        known.append(f"{fid}: {open_findings[fid]['what']} [{len(seen)} cases, e.g. {seen[0]}]")
+    # crashes first: they are the property's failures, the verdict mismatches only announce them
+    fails.sort(key=lambda d: 0 if any("child process died" in b or "no progress within" in b for b in d.get("failed", [])) else 1)
+    failures = []
+    complete = len(ctx["cases"]) >= 600  # a replay of one case (--only) does not run the families
+    if complete and not fails:
+        for f in _all_findings():
+            for w in (f.get("witness") or {}).get("replayed_as", []):
+                if w not in witnesses_ok and f["id"] not in known_seen:
+                    failures.append(f"witness {w} of {f['id']} was not replayed by this run (nesting families incomplete)")
     return {
         "oracle_failures": fails,
         "known": known,
+        "failures": failures,
         "coverage": {"oracle_cases_checked": checked, "oracle_cases_ok": ok, "case_classes": classes,
+                     "finding_witnesses_replayed_ok": sorted(witnesses_ok & {w for f in _all_findings() for w in (f.get("witness") or {}).get("replayed_as", [])}),
                      "oracle_clauses": ["no panic in lex / parse / event hook", "tokens tile [0,|s|) and their texts "
                                         "concatenate to s", "parse(s).syntax().text() == s", "error ranges inside the text "
                                         "and equal to a significant token's range or 0..0", "second parse gives the same "
@@ -140,7 +214,9 @@ def extra(ctx):
                                         "in order", "events and errors are reproducible by parser operations (Marker discipline)",
                                         "error-free inputs: same shape (trivia-free pre-order dump) "
                                         "and still error-free after inserting spaces/newlines/block comments at token "
-                                        "boundaries", "premises of c12_sink_lossless_events hold on the real stream"]},
+                                        "boundaries", "premises of c12_sink_lossless_events hold on the real stream",
+                                        "nesting families: the process survives parse + second parse + drop on a 2 MiB stack, "
+                                        "and the nesting-limit error is reported iff the form exceeds the limit read from the source"]},
     }
 
 
